@@ -149,7 +149,11 @@ func c06RandomGraph(r *rand.Rand) scen.Policy {
 			continue
 		}
 		have[rule.Name] = true
-		files = append(files, scen.RuleFile{Name: rule.Name, Principals: c06Principals(), Rules: mkRules()})
+		rules := mkRules()
+		if r.IntN(5) == 0 {
+			rules = nil // a delegated rule file that declares no rules (only the allow rule)
+		}
+		files = append(files, scen.RuleFile{Name: rule.Name, Principals: c06Principals(), Rules: rules})
 	}
 	return c06Policy(files)
 }
